@@ -1235,6 +1235,18 @@ where
         Ok(())
     }
 
+    /// Writes blocks and flushes, so that a failure to deliver
+    /// the buffered bytes is reported instead of lost on drop
+    fn write_blocks_flushed<W: std::io::Write>(
+        mut w: BufWriter<W>,
+        blocks: BlockList,
+    ) -> Result<(), Error> {
+        use std::io::Write;
+
+        write_blocks(&mut w, blocks)?;
+        w.flush().map_err(Error::Io)
+    }
+
     // the starting position in the stream we rewind to
     let start = std::io::SeekFrom::Start(original.stream_position().map_err(Error::Io)?);
 
@@ -1262,7 +1274,7 @@ where
             match grow_padding(&mut blocks, old_size - new_size) {
                 Ok(()) => {
                     original.seek(start).map_err(Error::Io)?;
-                    write_blocks(BufWriter::new(original), blocks)
+                    write_blocks_flushed(BufWriter::new(original), blocks)
                         .map(|()| false)
                         .map_err(E::from)
                 }
@@ -1274,7 +1286,7 @@ where
         Ordering::Equal => {
             // blocks are the same size, so no need to adjust padding
             original.seek(start).map_err(Error::Io)?;
-            write_blocks(BufWriter::new(original), blocks)
+            write_blocks_flushed(BufWriter::new(original), blocks)
                 .map(|()| false)
                 .map_err(E::from)
         }
@@ -1284,7 +1296,7 @@ where
             match shrink_padding(&mut blocks, new_size - old_size) {
                 Ok(()) => {
                     original.seek(start).map_err(Error::Io)?;
-                    write_blocks(BufWriter::new(original), blocks)
+                    write_blocks_flushed(BufWriter::new(original), blocks)
                         .map(|()| false)
                         .map_err(E::from)
                 }
